@@ -818,6 +818,17 @@ func (c *LinCtx) Intrinsic(ls []Lin, nn nonNegProver) []Lin {
 					emit(l)
 				}
 			}
+			if isBuiltin(&x.Call, "min") || isBuiltin(&x.Call, "max") {
+				if _, isInt := intBasic(x.Type()); isInt {
+					sign := int64(1) // min(…) ≤ every argument
+					if isBuiltin(&x.Call, "max") {
+						sign = -1 // max(…) ≥ every argument
+					}
+					for _, a := range x.Call.Args {
+						emit(al.add(c.linP(a, nn), -1).scale(sign))
+					}
+				}
+			}
 			if isBuiltin(&x.Call, "copy") {
 				// 0 ≤ copy(dst, src) ≤ len(dst), len(src)
 				emit(al.scale(-1))
